@@ -64,7 +64,12 @@ class BoundMethod:
 
 
 class LoopSpec:
-    def __init__(self, counter=None, inv=(), variant=None, havoc=None, unroll=None, exit_assume=(), modifies=None):
+    def __init__(self, counter=None, inv=(), variant=None, havoc=None, unroll=None, exit_assume=(), modifies=None,
+                 ghost_init=(), ghost_pre=(), ghost_post=(), types=None):
+        self.ghost_init = list(ghost_init)   # ghost assignments executed once before the loop
+        self.ghost_pre = list(ghost_pre)     # ... at the start of every iteration
+        self.ghost_post = list(ghost_post)   # ... at the end of every iteration (before the invariant is re-checked)
+        self.types = types or {}             # variable -> 'real' | 'int': sort used when the variable is havocked
         self.modifies = modifies or {}  # buffer variable -> spec lambda over indices: region that may be written
                                         # while the loop runs (frame: everything else keeps its pre-loop content)
         self.counter = counter          # ghost name of the iteration counter
@@ -295,9 +300,17 @@ class Exec:
             rng = {'sym': Sym, 'int': z3.IntSort(), 'real': z3.RealSort(), 'bool': z3.BoolSort()}[dt]
             f = z3.Function(n, z3.IntSort(), rng)
             return ArrayVal((ln,), lambda i: f(to_int(i)), dt)
+        if spec.startswith('seqof:list:'):
+            # immutable python sequence (symbolic length) of lists/strings modelled as z3 sequences
+            dt = spec[11:]
+            cod = {'sym': SymCodec, 'int': IntCodec, 'real': RealCodec, 'val': ValCodec}[dt]
+            ln = z3.Int('len_' + n)
+            st.assume(ln >= 0)
+            f = z3.Function(n, z3.IntSort(), z3.SeqSort(cod.sort))
+            return ArrayVal((ln,), lambda i: SeqVal(f(to_int(i)), cod), 'obj')
         if spec.startswith('list:'):
             dt = spec[5:]
-            cod = {'sym': SymCodec, 'int': IntCodec, 'real': RealCodec}[dt]
+            cod = {'sym': SymCodec, 'int': IntCodec, 'real': RealCodec, 'val': ValCodec}[dt]
             return SeqVal(z3.Const(n, z3.SeqSort(cod.sort)), cod)
         if spec.startswith('nd'):
             # nd1:real  nd2:xreal  -> fresh mutable buffer with symbolic shape
@@ -400,6 +413,17 @@ class Exec:
                 return [(st, None)]
             if nm in ('exit',) or (isinstance(f, ast.Attribute) and f.attr == 'exit'):
                 return [(st, (Outcome.RAISE, 'SystemExit', node))]
+            if isinstance(f, ast.Attribute) and isinstance(f.value, ast.Name) and f.attr == 'append' \
+                    and isinstance(st.env.get(f.value.id), PyList):
+                pl = st.env[f.value.id]
+                old = st.store[pl.buf]
+                x = self.eval(node.value.args[0], st)
+                n = old.shape[0]
+                new = ArrayVal((s_add(n, 1),), lambda i, old=old, n=n, x=x: merge_obj(to_z3(s_eq(i, n)), x, old.get(i))
+                               if s_eq(i, n) is not True and s_eq(i, n) is not False else (x if s_eq(i, n) is True else old.get(i)), old.dtype)
+                new.elem = getattr(old, 'elem', None)
+                st.store[pl.buf] = new
+                return [(st, None)]
             if isinstance(f, ast.Attribute) and isinstance(f.value, ast.Name) and f.attr in ('append', 'insert') \
                     and isinstance(st.env.get(f.value.id), SeqVal):
                 # list mutation on a z3-Seq modelled list (value semantics: the list must not be aliased)
@@ -501,6 +525,15 @@ class Exec:
             if isinstance(v, list) and not v and target.id in hints:
                 cod = hints[target.id]
                 v = SeqVal(z3.Empty(z3.SeqSort(cod.sort)), cod)
+            lhints = self.contract.ghosts.get('listvars', {})
+            if isinstance(v, list) and not v and target.id in lhints:
+                # growable python list modelled as (length, index -> element) in the store
+                cod = lhints[target.id]
+                buf = fresh_name('list_' + target.id)
+                arr = ArrayVal((0,), lambda i: cod.unpack(z3.Const(fresh_name('nil'), cod.sort)), 'obj')
+                arr.elem = cod
+                st.store[buf] = arr
+                v = PyList(buf)
             st.env[target.id] = v
             return
         if isinstance(target, (ast.Tuple, ast.List)):
@@ -588,7 +621,7 @@ class Exec:
             return z3.Bool(fresh_name(name))
         if isinstance(v, int) or (is_z3(v) and z3_kind(v) == 'int'):
             return z3.Int(fresh_name(name))
-        if isinstance(v, float) and kind(v) == 'real' or (is_z3(v) and z3_kind(v) == 'real'):
+        if (isinstance(v, float) and kind(v) == 'real') or (is_z3(v) and z3_kind(v) == 'real'):
             return z3.Real(fresh_name(name))
         if isinstance(v, XReal) or kind(v) == 'xreal':
             return XReal.fresh(name)
@@ -623,6 +656,16 @@ class Exec:
         regions = regions or {}
         for n in sorted(bufs):
             v = st.env.get(n)
+            if isinstance(v, PyList) and getattr(st.store[v.buf], 'elem', None) is not None:
+                old = st.store[v.buf]
+                cod = old.elem
+                ln = z3.Int(fresh_name('len_' + n))
+                st.assume(ln >= 0)
+                f = z3.Function(fresh_name(n), z3.IntSort(), cod.sort)
+                arr = ArrayVal((ln,), lambda i, f=f, cod=cod: cod.unpack(f(to_int(i))), 'obj')
+                arr.elem = cod
+                st.store[v.buf] = arr
+                continue
             if isinstance(v, (NDRef, PyList)):
                 old = st.store[v.buf]
                 fresh = fresh_array(old.shape, old.dtype if old.dtype != 'obj' else 'val', n)
@@ -644,6 +687,27 @@ class Exec:
             if a in st.heap:
                 arr, cod = st.heap[a]
                 st.heap[a] = (z3.Const(fresh_name('H_' + a), arr.sort()), cod)
+
+    def exec_ghost(self, stmts, st):
+        for text in stmts:
+            mod = ast.parse(text)
+            self.spec_mode += 1
+            try:
+                outs = self.exec_block(mod.body, st)
+            finally:
+                self.spec_mode -= 1
+            if len(outs) != 1 or outs[0][1] is not None:
+                raise Unsupported('ghost statement %r branches' % text)
+
+    def ghost_names(self, spec):
+        names = set()
+        for text in list(spec.ghost_pre) + list(spec.ghost_post):
+            for n in ast.walk(ast.parse(text)):
+                if isinstance(n, ast.Assign):
+                    for t in n.targets:
+                        if isinstance(t, ast.Name):
+                            names.add(t.id)
+        return names
 
     def region_fn(self, lam, st, cname, cnt):
         node = ast.parse(lam, mode='eval').body
@@ -791,6 +855,11 @@ class Exec:
         if spec.havoc:
             names |= set(spec.havoc)
         self._rebound = self.rebound_names(node.body)
+        names |= self.ghost_names(spec)
+        self.exec_ghost(spec.ghost_init, st)
+        for vn, ty in spec.types.items():
+            if vn in st.env and is_conc_num(st.env[vn]):
+                st.env[vn] = float(st.env[vn]) if ty == 'real' else int(st.env[vn])
         # names introduced in the body only are not live at the head
         # 1. invariant holds on entry (counter = 0)
         st.env[cname] = 0
@@ -823,8 +892,10 @@ class Exec:
             self.emit(body_st, 'variant-nonneg#%d' % k, to_z3(s_le(0, var0)), node, spec.variant)
         if self.feasible(body_st):
             self.covers.append((node.lineno, 'loop-body'))
+            self.exec_ghost(spec.ghost_pre, body_st)
             for s2, oc2 in self.exec_block(node.body, body_st):
                 if oc2 is None or oc2[0] == Outcome.CONTINUE:
+                    self.exec_ghost(spec.ghost_post, s2)
                     s2.env[cname] = cnt + 1
                     for i, inv in enumerate(spec.inv):
                         self.emit(s2, 'inv-pres#%d.%d' % (k, i), self.eval_spec(inv, s2), node, inv)
